@@ -46,7 +46,7 @@ func (h *handler) authenticate(resp http.ResponseWriter, req *http.Request) bool
 		ad := &AuthData{}
 		err = h.sc.Decode(authcookie, cookie.Value, ad)
 		if err == nil {
-			if ad.Expiration.Before(time.Now()) {
+			if ad.Expiration.After(time.Now()) {
 				return true
 			}
 			inOrg, err := h.userInOrg(ad.AccessToken)
